@@ -1,0 +1,628 @@
+//go:build verif
+
+package pubsub
+
+// Auto-trace (verification extension X00, see /verif/spec/autotrace).
+//
+// When the environment variable VERIF_AUTOTRACE names a directory, every PubSub
+// instance created in this process gets one more EventTracer (tee'd with the
+// user's own, if any) and one more RawTracer. Both only observe. Every trace
+// event becomes one NDJSON line in a per-process file of that directory:
+//
+//	{"k":"I", ...}  one line per instance, written by NewPubSub before anything is started
+//	{"k":"E", ...}  one line per pb.TraceEvent, in the shape documented at (*autoInst).Trace
+//
+// "g" is a process-wide sequence number taken inside the tracer callback: if one
+// callback happens-before another, its g is smaller. Lines of one goroutine are
+// therefore in program order when sorted by g; the file order is NOT the g order.
+// For SEND_RPC the line also carries "gp", the g taken under the queue lock by the
+// push that made the RPC visible to the writer goroutine (the library calls
+// tracer.SendRPC after the push, so the receiver may trace RECV_RPC first).
+//
+// Nothing here changes what the library does.
+
+import (
+	"encoding/hex"
+	"fmt"
+	"hash/fnv"
+	"os"
+	"path/filepath"
+	"reflect"
+	"runtime"
+	"strconv"
+	"strings"
+	"sync"
+	"sync/atomic"
+	"time"
+	"unicode/utf8"
+
+	pb "github.com/libp2p/go-libp2p-pubsub/pb"
+	"github.com/libp2p/go-libp2p/core/peer"
+	"github.com/libp2p/go-libp2p/core/protocol"
+)
+
+type autoTrace struct {
+	mu       sync.Mutex
+	f        *os.File
+	seq      atomic.Int64 // g
+	inst     atomic.Int64 // n
+	lastTest string       // tests of this package run one at a time
+
+	pushMu sync.Mutex
+	pushed map[*RPC]autoPush // successful pushes whose SendRPC trace call has not been seen yet
+}
+
+type autoPush struct {
+	g      int64
+	urgent bool
+}
+
+var autoTracer *autoTrace
+
+func init() {
+	dir := os.Getenv("VERIF_AUTOTRACE")
+	if dir == "" {
+		return
+	}
+	if err := os.MkdirAll(dir, 0o755); err != nil {
+		fmt.Fprintln(os.Stderr, "verif autotrace: ", err)
+		return
+	}
+	name := filepath.Join(dir, fmt.Sprintf("autotrace-%d-%d.ndjson", os.Getpid(), time.Now().UnixNano()))
+	f, err := os.OpenFile(name, os.O_CREATE|os.O_WRONLY|os.O_APPEND, 0o644)
+	if err != nil {
+		fmt.Fprintln(os.Stderr, "verif autotrace: ", err)
+		return
+	}
+	at := &autoTrace{f: f, pushed: make(map[*RPC]autoPush)}
+	autoTracer = at
+
+	// compose with whatever is registered already
+	prevNew := VerifOnNewPubSubFn.Load()
+	onNew := func(ps *PubSub) {
+		if prevNew != nil {
+			(*prevNew)(ps)
+		}
+		at.attach(ps)
+	}
+	VerifOnNewPubSubFn.Store(&onNew)
+
+	prevPush := VerifQueuePushFn.Load()
+	onPush := func(q *VerifRPCQueue, rpc *RPC, urgent bool, err error) {
+		if prevPush != nil {
+			(*prevPush)(q, rpc, urgent, err)
+		}
+		if err == nil {
+			at.notePush(rpc, urgent)
+		}
+	}
+	VerifQueuePushFn.Store(&onPush)
+}
+
+func (at *autoTrace) notePush(rpc *RPC, urgent bool) {
+	g := at.seq.Add(1)
+	at.pushMu.Lock()
+	if len(at.pushed) > 1<<16 {
+		// pushes that are never traced (unit tests of the queue): do not grow for ever
+		at.pushed = make(map[*RPC]autoPush)
+	}
+	at.pushed[rpc] = autoPush{g: g, urgent: urgent}
+	at.pushMu.Unlock()
+}
+
+func (at *autoTrace) takePush(rpc *RPC) (autoPush, bool) {
+	at.pushMu.Lock()
+	p, ok := at.pushed[rpc]
+	if ok {
+		delete(at.pushed, rpc)
+	}
+	at.pushMu.Unlock()
+	return p, ok
+}
+
+func (at *autoTrace) write(b []byte) {
+	at.mu.Lock()
+	at.f.Write(b)
+	at.mu.Unlock()
+}
+
+// testName walks the stack for the outermost frame of a Go test function.
+func (at *autoTrace) testName() (string, string) {
+	pcs := make([]uintptr, 64)
+	n := runtime.Callers(2, pcs)
+	frames := runtime.CallersFrames(pcs[:n])
+	found := ""
+	for {
+		fr, more := frames.Next()
+		fn := fr.Function
+		if i := strings.LastIndexByte(fn, '/'); i >= 0 {
+			fn = fn[i+1:]
+		}
+		parts := strings.Split(fn, ".")
+		for _, p := range parts[1:] {
+			if strings.HasPrefix(p, "Test") || strings.HasPrefix(p, "Benchmark") || strings.HasPrefix(p, "Fuzz") || strings.HasPrefix(p, "Example") {
+				found = parts[0] + "." + p
+				break
+			}
+		}
+		if !more {
+			break
+		}
+	}
+	at.mu.Lock()
+	defer at.mu.Unlock()
+	if found != "" {
+		at.lastTest = found
+		return found, "stack"
+	}
+	if at.lastTest != "" {
+		return at.lastTest, "last"
+	}
+	return "unknown", "none"
+}
+
+// ---------------------------------------------------------------------------
+// per-instance recorder
+
+type autoInst struct {
+	at   *autoTrace
+	n    int64
+	t0   int64 // UnixNano at creation (virtual inside a synctest bubble)
+	user EventTracer
+
+	// details only the RawTracer view has, handed to the EventTracer call that
+	// follows in the same pubsubTracer method (same goroutine)
+	stMu sync.Mutex
+	st   autoStash
+}
+
+type autoStash struct {
+	kind   pb.TraceEvent_Type
+	peer   peer.ID
+	valid  bool
+	gp     int64
+	hasGp  bool
+	urgent bool
+	bo     []uint64 // backoff of each PRUNE entry (seconds)
+	ext    bool     // the RPC carries extension fields the trace metadata does not show
+}
+
+func (at *autoTrace) attach(ps *PubSub) {
+	in := &autoInst{at: at, n: at.inst.Add(1), t0: time.Now().UnixNano()}
+	if ps.tracer == nil {
+		ps.tracer = &pubsubTracer{pid: ps.host.ID(), idGen: ps.idGen}
+	}
+	in.user = ps.tracer.tracer
+	ps.tracer.tracer = in
+	ps.tracer.raw = append(ps.tracer.raw, (*autoRaw)(in))
+
+	test, src := at.testName()
+	g := at.seq.Add(1)
+	b := make([]byte, 0, 512)
+	b = append(b, `{"k":"I","g":`...)
+	b = strconv.AppendInt(b, g, 10)
+	b = append(b, `,"n":`...)
+	b = strconv.AppendInt(b, in.n, 10)
+	b = appendKS(b, "id", autoPeer(ps.host.ID()))
+	b = appendKS(b, "test", test)
+	b = appendKS(b, "testsrc", src)
+	router := fmt.Sprintf("%T", ps.rt)
+	var gs *GossipSubRouter
+	switch rt := ps.rt.(type) {
+	case *GossipSubRouter:
+		router, gs = "gossipsub", rt
+	case *FloodSubRouter:
+		router = "floodsub"
+	case *RandomSubRouter:
+		router = "randomsub"
+	}
+	b = appendKS(b, "router", router)
+	b = appendKB(b, "sign", ps.signPolicy.mustSign())
+	b = appendKB(b, "verify", ps.signPolicy.mustVerify())
+	b = appendKB(b, "author", ps.signID == ps.host.ID())
+	b = appendKB(b, "noauthor", ps.signID == "")
+	b = appendKI(b, "ttl", int64(ps.seenMsgTTL/time.Millisecond))
+	b = appendKI(b, "strategy", int64(ps.seenMsgStrategy))
+	b = appendKI(b, "maxmsg", int64(ps.maxMessageSize))
+	b = appendKI(b, "qsize", int64(ps.peerOutboundQueueSize))
+	b = appendKB(b, "usertracer", in.user != nil)
+	b = appendKB(b, "customid", reflect.ValueOf(ps.idGen.Default).Pointer() != reflect.ValueOf(DefaultMsgIdFn).Pointer())
+	b = appendKB(b, "subfilter", ps.subFilter != nil)
+	b = appendKB(b, "inspector", ps.appSpecificRpcInspector != nil)
+	b = appendKB(b, "discovery", ps.disc != nil && ps.disc.discovery != nil)
+	b = appendKS(b, "blacklist", fmt.Sprintf("%T", ps.blacklist))
+	if gs != nil {
+		p := gs.params
+		b = appendKI(b, "D", int64(p.D))
+		b = appendKI(b, "Dlo", int64(p.Dlo))
+		b = appendKI(b, "Dhi", int64(p.Dhi))
+		b = appendKI(b, "Dscore", int64(p.Dscore))
+		b = appendKI(b, "Dout", int64(p.Dout))
+		b = appendKI(b, "Dlazy", int64(p.Dlazy))
+		b = appendKI(b, "hb", int64(p.HeartbeatInterval/time.Millisecond))
+		b = appendKI(b, "pruneBackoff", int64(p.PruneBackoff/time.Millisecond))
+		b = appendKI(b, "unsubBackoff", int64(p.UnsubscribeBackoff/time.Millisecond))
+		b = appendKI(b, "fanoutTTL", int64(p.FanoutTTL/time.Millisecond))
+		b = appendKI(b, "maxIHaveLen", int64(p.MaxIHaveLength))
+		b = appendKI(b, "idwThreshold", int64(p.IDontWantMessageThreshold))
+		b = appendKB(b, "floodPublish", gs.floodPublish)
+		b = appendKB(b, "doPX", gs.doPX)
+		b = appendKB(b, "score", gs.score != nil)
+		b = appendKB(b, "gater", gs.gate != nil)
+		b = append(b, `,"direct":[`...)
+		first := true
+		for d := range gs.direct {
+			if !first {
+				b = append(b, ',')
+			}
+			first = false
+			b = appendJSONString(b, autoPeer(d))
+		}
+		b = append(b, ']')
+		b = append(b, `,"protos":[`...)
+		for i, pr := range gs.protos {
+			if i > 0 {
+				b = append(b, ',')
+			}
+			b = appendJSONString(b, string(pr))
+		}
+		b = append(b, ']')
+	}
+	b = append(b, "}\n"...)
+	at.write(b)
+}
+
+// Trace implements EventTracer. One line per event:
+//
+//	g   sequence number taken on entry          n  instance     ts  ms since the instance was created (event timestamp)
+//	ty  pb.TraceEvent type name                 p  peer (sendTo / receivedFrom / the GRAFT, PRUNE, stream peer)
+//	t   topic      m  message id      r  reject reason      proto  protocol of a new outbound stream
+//	rpc metadata of RECV_RPC / SEND_RPC / DROP_RPC: msgs [[id,topic]], subs [[topic,bool]], graft [topic],
+//	    prune [[topic,npx,backoff s (-1 = unknown)]], ihave [[topic,[ids]]], iwant [ids], idw [ids]; empty parts omitted
+//	gp  (SEND_RPC) g of the queue push      u  (SEND_RPC) pushed on the urgent lane     x  RPC has extension fields
+func (in *autoInst) Trace(evt *pb.TraceEvent) {
+	g := in.at.seq.Add(1)
+	b := make([]byte, 0, 256)
+	b = append(b, `{"k":"E","g":`...)
+	b = strconv.AppendInt(b, g, 10)
+	b = append(b, `,"n":`...)
+	b = strconv.AppendInt(b, in.n, 10)
+	b = appendKI(b, "ts", (evt.GetTimestamp()-in.t0)/int64(time.Millisecond))
+	ty := evt.GetType()
+	b = appendKS(b, "ty", ty.String())
+	switch ty {
+	case pb.TraceEvent_PUBLISH_MESSAGE:
+		x := evt.GetPublishMessage()
+		b = appendKS(b, "m", autoMsgID(x.GetMessageID()))
+		b = appendKS(b, "t", x.GetTopic())
+	case pb.TraceEvent_REJECT_MESSAGE:
+		x := evt.GetRejectMessage()
+		b = appendKS(b, "m", autoMsgID(x.GetMessageID()))
+		b = appendKS(b, "t", x.GetTopic())
+		b = appendKS(b, "p", autoPeer(peer.ID(x.GetReceivedFrom())))
+		b = appendKS(b, "r", x.GetReason())
+	case pb.TraceEvent_DUPLICATE_MESSAGE:
+		x := evt.GetDuplicateMessage()
+		b = appendKS(b, "m", autoMsgID(x.GetMessageID()))
+		b = appendKS(b, "t", x.GetTopic())
+		b = appendKS(b, "p", autoPeer(peer.ID(x.GetReceivedFrom())))
+	case pb.TraceEvent_DELIVER_MESSAGE:
+		x := evt.GetDeliverMessage()
+		b = appendKS(b, "m", autoMsgID(x.GetMessageID()))
+		b = appendKS(b, "t", x.GetTopic())
+		b = appendKS(b, "p", autoPeer(peer.ID(x.GetReceivedFrom())))
+	case pb.TraceEvent_ON_NEW_OUTBOUND_STREAM:
+		x := evt.GetOnNewOutboundStream()
+		b = appendKS(b, "p", autoPeer(peer.ID(x.GetPeerID())))
+		b = appendKS(b, "proto", x.GetProto())
+	case pb.TraceEvent_ON_CLOSED_OUTBOUND_STREAM:
+		b = appendKS(b, "p", autoPeer(peer.ID(evt.GetOnClosedOutboundStream().GetPeerID())))
+	case pb.TraceEvent_RECV_RPC:
+		x := evt.GetRecvRPC()
+		p := peer.ID(x.GetReceivedFrom())
+		b = appendKS(b, "p", autoPeer(p))
+		b = in.appendMeta(b, ty, p, x.GetMeta())
+	case pb.TraceEvent_SEND_RPC:
+		x := evt.GetSendRPC()
+		p := peer.ID(x.GetSendTo())
+		b = appendKS(b, "p", autoPeer(p))
+		b = in.appendMeta(b, ty, p, x.GetMeta())
+	case pb.TraceEvent_DROP_RPC:
+		x := evt.GetDropRPC()
+		p := peer.ID(x.GetSendTo())
+		b = appendKS(b, "p", autoPeer(p))
+		b = in.appendMeta(b, ty, p, x.GetMeta())
+	case pb.TraceEvent_JOIN:
+		b = appendKS(b, "t", evt.GetJoin().GetTopic())
+	case pb.TraceEvent_LEAVE:
+		b = appendKS(b, "t", evt.GetLeave().GetTopic())
+	case pb.TraceEvent_GRAFT:
+		b = appendKS(b, "p", autoPeer(peer.ID(evt.GetGraft().GetPeerID())))
+		b = appendKS(b, "t", evt.GetGraft().GetTopic())
+	case pb.TraceEvent_PRUNE:
+		b = appendKS(b, "p", autoPeer(peer.ID(evt.GetPrune().GetPeerID())))
+		b = appendKS(b, "t", evt.GetPrune().GetTopic())
+	}
+	b = append(b, "}\n"...)
+	in.at.write(b)
+
+	if in.user != nil {
+		in.user.Trace(evt)
+	}
+}
+
+func (in *autoInst) takeStash(ty pb.TraceEvent_Type, p peer.ID) (autoStash, bool) {
+	in.stMu.Lock()
+	st := in.st
+	in.st = autoStash{}
+	in.stMu.Unlock()
+	if st.valid && st.kind == ty && st.peer == p {
+		return st, true
+	}
+	return autoStash{}, false
+}
+
+func (in *autoInst) putStash(st autoStash) {
+	st.valid = true
+	in.stMu.Lock()
+	in.st = st
+	in.stMu.Unlock()
+}
+
+func (in *autoInst) appendMeta(b []byte, ty pb.TraceEvent_Type, p peer.ID, r *pb.TraceEvent_RPCMeta) []byte {
+	st, have := in.takeStash(ty, p)
+	if have && st.hasGp {
+		b = appendKI(b, "gp", st.gp)
+		b = appendKB(b, "u", st.urgent)
+	}
+	if have && st.ext {
+		b = appendKB(b, "x", true)
+	}
+	b = append(b, `,"rpc":{`...)
+	first := true
+	key := func(k string) {
+		if !first {
+			b = append(b, ',')
+		}
+		first = false
+		b = append(b, '"')
+		b = append(b, k...)
+		b = append(b, `":[`...)
+	}
+	if ms := r.GetMessages(); len(ms) > 0 {
+		key("msgs")
+		for i, m := range ms {
+			if i > 0 {
+				b = append(b, ',')
+			}
+			b = append(b, '[')
+			b = appendJSONString(b, autoMsgID(m.GetMessageID()))
+			b = append(b, ',')
+			b = appendJSONString(b, m.GetTopic())
+			b = append(b, ']')
+		}
+		b = append(b, ']')
+	}
+	if ss := r.GetSubscription(); len(ss) > 0 {
+		key("subs")
+		for i, s := range ss {
+			if i > 0 {
+				b = append(b, ',')
+			}
+			b = append(b, '[')
+			b = appendJSONString(b, s.GetTopic())
+			if s.GetSubscribe() {
+				b = append(b, ",true]"...)
+			} else {
+				b = append(b, ",false]"...)
+			}
+		}
+		b = append(b, ']')
+	}
+	if c := r.GetControl(); c != nil {
+		if gr := c.GetGraft(); len(gr) > 0 {
+			key("graft")
+			for i, x := range gr {
+				if i > 0 {
+					b = append(b, ',')
+				}
+				b = appendJSONString(b, x.GetTopic())
+			}
+			b = append(b, ']')
+		}
+		if pr := c.GetPrune(); len(pr) > 0 {
+			key("prune")
+			for i, x := range pr {
+				if i > 0 {
+					b = append(b, ',')
+				}
+				b = append(b, '[')
+				b = appendJSONString(b, x.GetTopic())
+				b = append(b, ',')
+				b = strconv.AppendInt(b, int64(len(x.GetPeers())), 10)
+				b = append(b, ',')
+				if have && i < len(st.bo) {
+					b = strconv.AppendUint(b, st.bo[i], 10)
+				} else {
+					b = append(b, "-1"...)
+				}
+				b = append(b, ']')
+			}
+			b = append(b, ']')
+		}
+		if ih := c.GetIhave(); len(ih) > 0 {
+			key("ihave")
+			for i, x := range ih {
+				if i > 0 {
+					b = append(b, ',')
+				}
+				b = append(b, '[')
+				b = appendJSONString(b, x.GetTopic())
+				b = append(b, ",["...)
+				for j, id := range x.GetMessageIDs() {
+					if j > 0 {
+						b = append(b, ',')
+					}
+					b = appendJSONString(b, autoMsgID(id))
+				}
+				b = append(b, "]]"...)
+			}
+			b = append(b, ']')
+		}
+		if iw := c.GetIwant(); len(iw) > 0 {
+			key("iwant")
+			k := 0
+			for _, x := range iw {
+				for _, id := range x.GetMessageIDs() {
+					if k > 0 {
+						b = append(b, ',')
+					}
+					k++
+					b = appendJSONString(b, autoMsgID(id))
+				}
+			}
+			b = append(b, ']')
+		}
+		if dw := c.GetIdontwant(); len(dw) > 0 {
+			key("idw")
+			k := 0
+			for _, x := range dw {
+				for _, id := range x.GetMessageIDs() {
+					if k > 0 {
+						b = append(b, ',')
+					}
+					k++
+					b = appendJSONString(b, autoMsgID(id))
+				}
+			}
+			b = append(b, ']')
+		}
+	}
+	b = append(b, '}')
+	return b
+}
+
+// ---------------------------------------------------------------------------
+// RawTracer view: only used for what the trace metadata leaves out
+
+type autoRaw autoInst
+
+func autoExt(rpc *RPC) bool {
+	return rpc.Partial != nil || rpc.TestExtension != nil || rpc.GetControl().GetExtensions() != nil
+}
+
+func autoBackoffs(rpc *RPC) []uint64 {
+	pr := rpc.GetControl().GetPrune()
+	if len(pr) == 0 {
+		return nil
+	}
+	out := make([]uint64, len(pr))
+	for i, x := range pr {
+		out[i] = x.GetBackoff()
+	}
+	return out
+}
+
+func (r *autoRaw) RecvRPC(rpc *RPC) {
+	(*autoInst)(r).putStash(autoStash{kind: pb.TraceEvent_RECV_RPC, peer: rpc.from, bo: autoBackoffs(rpc), ext: autoExt(rpc)})
+}
+
+func (r *autoRaw) SendRPC(rpc *RPC, p peer.ID) {
+	st := autoStash{kind: pb.TraceEvent_SEND_RPC, peer: p, bo: autoBackoffs(rpc), ext: autoExt(rpc)}
+	if pu, ok := r.at.takePush(rpc); ok {
+		st.gp, st.hasGp, st.urgent = pu.g, true, pu.urgent
+	}
+	(*autoInst)(r).putStash(st)
+}
+
+func (r *autoRaw) DropRPC(rpc *RPC, p peer.ID) {
+	(*autoInst)(r).putStash(autoStash{kind: pb.TraceEvent_DROP_RPC, peer: p, bo: autoBackoffs(rpc), ext: autoExt(rpc)})
+}
+
+func (r *autoRaw) OnNewOutboundStream(peer.ID, protocol.ID) {}
+func (r *autoRaw) OnClosedOutboundStream(peer.ID)           {}
+func (r *autoRaw) Join(string)                              {}
+func (r *autoRaw) Leave(string)                             {}
+func (r *autoRaw) Graft(peer.ID, string)                    {}
+func (r *autoRaw) Prune(peer.ID, string)                    {}
+func (r *autoRaw) ValidateMessage(*Message)                 {}
+func (r *autoRaw) DeliverMessage(*Message)                  {}
+func (r *autoRaw) RejectMessage(*Message, string)           {}
+func (r *autoRaw) DuplicateMessage(*Message)                {}
+func (r *autoRaw) ThrottlePeer(peer.ID)                     {}
+func (r *autoRaw) UndeliverableMessage(*Message)            {}
+
+var _ RawTracer = (*autoRaw)(nil)
+var _ EventTracer = (*autoInst)(nil)
+
+// ---------------------------------------------------------------------------
+// normalisation
+
+// autoPeer: the last 6 bytes of the peer id in hex (test code also uses ids like "A").
+func autoPeer(p peer.ID) string {
+	s := string(p)
+	if len(s) > 6 {
+		s = s[len(s)-6:]
+	}
+	return hex.EncodeToString([]byte(s))
+}
+
+// autoMsgID: short ids in hex, long ones as the hex of their 64 bit FNV-1a hash.
+func autoMsgID(id []byte) string {
+	if len(id) <= 8 {
+		return hex.EncodeToString(id)
+	}
+	h := fnv.New64a()
+	h.Write(id)
+	return "h" + hex.EncodeToString(h.Sum(nil))
+}
+
+func appendKS(b []byte, k, v string) []byte {
+	b = append(b, ',', '"')
+	b = append(b, k...)
+	b = append(b, '"', ':')
+	return appendJSONString(b, v)
+}
+
+func appendKI(b []byte, k string, v int64) []byte {
+	b = append(b, ',', '"')
+	b = append(b, k...)
+	b = append(b, '"', ':')
+	return strconv.AppendInt(b, v, 10)
+}
+
+func appendKB(b []byte, k string, v bool) []byte {
+	b = append(b, ',', '"')
+	b = append(b, k...)
+	b = append(b, '"', ':')
+	return strconv.AppendBool(b, v)
+}
+
+func appendJSONString(b []byte, s string) []byte {
+	const hexd = "0123456789abcdef"
+	b = append(b, '"')
+	for i := 0; i < len(s); {
+		c := s[i]
+		if c < utf8.RuneSelf {
+			switch {
+			case c == '"' || c == '\\':
+				b = append(b, '\\', c)
+			case c < 0x20 || c == 0x7f:
+				b = append(b, '\\', 'u', '0', '0', hexd[c>>4], hexd[c&0xf])
+			default:
+				b = append(b, c)
+			}
+			i++
+			continue
+		}
+		r, size := utf8.DecodeRuneInString(s[i:])
+		if r == utf8.RuneError && size == 1 {
+			b = append(b, '\\', 'u', '0', '0', hexd[c>>4], hexd[c&0xf])
+			i++
+			continue
+		}
+		b = append(b, s[i:i+size]...)
+		i += size
+	}
+	return append(b, '"')
+}
